@@ -57,6 +57,20 @@ CHECKS = {
              "(R-UNSAFE). Does not decide the index arithmetic inside SIMD kernels (class h).",
         note="x86_64 only; trusts rustc's target-feature tables and std_detect's meaning of a feature name",
         ref="DESIGN.md section 3 C02"),
+    "C05": dict(
+        technique="ordering / control-dependence rules on MIR of the slot bookkeeping + decision-table extraction of the gating predicates by abstract evaluation of MIR over a finite abstraction",
+        text="Claimed narrowly: which reference slot a frame reads and which it is saved into. A frame's sources are read before its own "
+             "save; saves are control-dependent on can_reference()/lf_level; the per-frame vectors stay index-aligned; and the complete "
+             "decision tables of can_reference/is_keyframe/frame-type helpers equal the format's rules. Does not decide the blend arithmetic.",
+        note="reference decision tables transcribed from ISO/IEC 18181-1; abstraction: duration {0,1,1000}, save_as_reference 0..3",
+        ref="DESIGN.md section 3 C05"),
+    "C06": dict(
+        technique="must-pass-through and loop-iteration path rules on MIR (cache invalidation)",
+        text="Claimed narrowly: region changes always invalidate. Every store to the requested region reaches reset_cache; reset_cache "
+             "clears the loading caches and replaces the handle of every non-ReferenceOnly frame by a fresh handle built for the new "
+             "region. Necessary for history-independence of region requests; does not decide padding arithmetic.",
+        note="intraprocedural; handle replacement recognised as a store into renders_narrow|wide[idx]",
+        ref="DESIGN.md section 3 C06"),
     "C07": dict(
         technique="who-may-call bans over resolved callees, closure-capture census with Freeze verdicts, monotone-store dataflow on shared Result slots",
         text="Decides structural necessary conditions of schedule independence for all schedules and pool sizes: no decoder crate can "
